@@ -74,6 +74,11 @@ def run(chk):
     r3(chk)
     r4(chk)
     r5(chk)
+    # R6: the polling data are the assorter's values; they lie in [0, upper_bound] only if the declared bound is the bound of the
+    # assorter that is actually built (C02.R2: value tables within [0, upper_bound]; the three sites of the supermajority bound agree)
+    from . import c02
+    chk.borrow(c02.r1_r2_plurality, {"C02.R2": "C06.R6"})
+    chk.borrow(c02.r3_supermajority, {"C02.R2": "C06.R6"})
 
 
 def r1(chk):
